@@ -50,7 +50,9 @@ def gconv(api, rng, alpha, nonempty_prefix):
         for i in range(n):
             # synonyms on either side independently: records with only URI synonyms, only CURIE synonyms, both, none
             recs.append(spec.Rec(
-                rstr(rng, alpha, 1 if nonempty_prefix else 0, 3), rstr(rng, alpha, 0, 5),
+                rstr(rng, alpha, 1 if nonempty_prefix else 0, 3),
+                # (a URI prefix is an arbitrary string: sometimes one that means something to the format underneath)
+                rstr(rng, alpha, 0, 5) if rng.random() < 0.93 else rng.choice(["@id", "@type", "@vocab", "@base", "@context", "_:", "a", "<x>"[1:2]]),
                 # (a CURIE-prefix synonym may be the empty string - the default namespace as an alias; SHACL can say so)
                 tuple(rstr(rng, alpha, 0 if rng.random() < 0.15 else 1, 3) for _ in range(rng.randint(1, 2))) if rng.random() < 0.45 else (),
                 tuple(rstr(rng, alpha, 1, 5) for _ in range(rng.randint(1, 2))) if rng.random() < 0.45 else (),
